@@ -6,7 +6,8 @@ CONSTANTS
   MaxSize = 65535
   ReaderStops = FALSE
   TrackUsed = FALSE
-INVARIANTS ConformErr ConformFlush ConformPend ConformPipe ConformNonce ConformPayload KeyBijection
+  ConnEmptyEOFQuirk = TRUE
+INVARIANTS ConformErr ConformFlush ConformPend ConformPipe ConformNonce ConformPayload ConformSize ConformConn KeyBijection
   TypeOK HsSound HsComplete HsWrongKey HsOrder KeysAgree InSync PrefixBeforeFailure ReadOkIffIntact ReadYieldsNext
   PristinePipe FlushCount NoNonceReuse DistinctSendKeys
 CHECK_DEADLOCK TRUE
